@@ -38,6 +38,59 @@ def rand_mx(rng, xmax=60):
     return m, x
 
 
+def lentz_branch_fires(z, n, eps1=1e-2, eps2=1e-16):
+    """replica of the control flow of mieangfuncs.f90 `lentz_dn1` (generator support only): does the
+    ill-conditioning workaround (Lentz 1976, 'Algorithm Improvement') execute for D_n(z)?"""
+    def a_i(i):
+        return (-1) ** (i + 1) * 2.0 * (n + i - 0.5) / z
+    a1, a2 = a_i(1), a_i(2)
+    num = a2 + 1.0 / a1
+    den = a2
+    prod = a1 * num / den
+    ctr = 3
+    fired = False
+    for _ in range(100000):
+        if not (abs(prod.real - 1) > eps2 or abs(prod.imag) > eps2):
+            break
+        ai = a_i(ctr)
+        num = ai + 1.0 / num
+        den = ai + 1.0 / den
+        if abs(num / ai) < eps1 or abs(den / ai) < eps1:
+            fired = True
+            ap1 = a_i(ctr + 1)
+            xi1, xi2 = 1.0 + ap1 * num, 1.0 + ap1 * den
+            ap2 = a_i(ctr + 2)
+            num, den = ap2 + num / xi1, ap2 + den / xi2
+            ctr += 2
+        prod = num / den
+        ctr += 1
+    return fired
+
+
+_POOL = {}
+
+
+def dense_pool(seed_rng, count=40, xhi=260.0):
+    """(m, x) of large, optically dense, weakly absorbing spheres for which the Lentz workaround executes"""
+    key = (count, xhi)
+    if key not in _POOL:
+        rng = np.random.default_rng(12345)
+        out = []
+        for _ in range(20000):
+            m = complex(float(rng.uniform(1.15, 2.6)), float(rng.choice([0.0, 0.0, 10 ** rng.uniform(-8, -3)])))
+            x = float(rng.uniform(15.0, xhi))
+            nn = int(miescatlib.nstop(x)) + 1
+            try:
+                if lentz_branch_fires(m * x, nn):
+                    out.append((m, x))
+            except (ZeroDivisionError, OverflowError):
+                continue
+            if len(out) >= count:
+                break
+        _POOL[key] = out
+    return _POOL[key]
+
+
 def cvec(line):
     v = np.array(parse_floats(line))
     return v[0::2] + 1j * v[1::2]
@@ -59,6 +112,10 @@ def correspondence(ctx):
             ctx.corr("dn_1_down(f2py)", "dndown %s %d %s" % (fl(cx(z)), nmx, fl(cx(start))),
                      impl_call(lambda: T.cflat(mieangfuncs.dn_1_down(z, nmx, nmx, start))), tol=1e-12, inputs=dict(z=cx(z), nmx=nmx))
         elif k == 2:
+            if (i // 10) % 2 == 0 and dense_pool(rng):
+                # inputs on which the ill-conditioning workaround of lentz_dn1 executes
+                pool = dense_pool(rng)
+                m, x = pool[(i // 20) % len(pool)]
             z = m * x
             nn = int(miescatlib.nstop(x)) + 1
             ctx.corr("lentz_dn1(f2py)", "lentz %s %d %s %s" % (fl(cx(z)), nn, f2b(1e-2), f2b(1e-16)),
@@ -134,6 +191,10 @@ def search(ctx):
                 # S-matrix: Mie (Fortran) vs pure-Python series of the lens theories vs the Lean series
                 m, x = rand_mx(rng, min(xmax, 40))
                 m = complex(m.real, 0.0) if i % 8 == 0 else m
+                if i % 8 == 4 and dense_pool(rng):
+                    # large dense spheres: the region where the Lentz workaround of the starting value executes
+                    pool = dense_pool(rng)
+                    m, x = pool[(i // 8 + int(rng.integers(0, len(pool)))) % len(pool)]
                 sc = Sphere(n=m * T.NMED, r=x / kwave, center=(0, 0, 0))
                 th = rng.uniform(0.01, math.pi - 0.01, size=4)
                 dp = detector_points(theta=th, phi=rng.uniform(0, 6.28, size=4))
